@@ -15,6 +15,7 @@ import CqlVerif.Drv.Idem
 import CqlVerif.Drv.Handled
 import CqlVerif.Drv.Route
 import CqlVerif.Drv.Codec
+import CqlVerif.Drv.Bytes
 open CqlVerif.Drv
 
 def dispatch (stream op real : String) : Verdict :=
@@ -36,6 +37,7 @@ def dispatch (stream op real : String) : Verdict :=
   | "handled" => HandledStream.handle op real
   | "route" => RouteStream.handle op real
   | "codec" => CodecStream.handle op real
+  | "bytes" => BytesStream.handle op real
   | _ => { kind := "diff", detail := s!"unknown stream {stream}" }
 
 partial def loop (h : IO.FS.Stream) (out : IO.FS.Stream) : IO Unit := do
